@@ -13,8 +13,8 @@ Page bodies are located with the independent reader tools/pq.py.  Damage:
             at every bit (first and last bit of the burst flipped, interior random)
 each x {buffer, stdio, mmap}, read through the column reader (all of them) and the batch reader (a sample).
 Oracle (independent of any model): verify_checksums=1 -> the read of the damaged column ends in an error and no
-row of the damaged page or of a later page is delivered.  verify_checksums=0 -> no crash/sanitizer report (a
-report is C04's business: counted in rep.cov["asan_with_verification_off"], C14 does not fail for it).
+row of the damaged page or of a later page is delivered.  verify_checksums=0 -> no crash/sanitizer report (the
+property's last clause; counted in rep.cov["asan_with_verification_off"] and reported as a violation).
 """
 import os, sys, json, random
 from pathlib import Path
@@ -58,7 +58,48 @@ def _gen_files(tier, rng):
         if not bodies or sum(b[4] for b in bodies) > budget or sum(b[4] for b in bodies) == 0:
             continue
         out.append((case, data, pf))
+    # the crafted CRC == 0 page (always)
+    case = _crc0_case(rng)
+    p = fc.tmppath()
+    st = fc.write_case(case, p)
+    if st.close_ok() and st.all_ok():
+        data = Path(p).read_bytes()
+        pf = pq.read_file(data)
+        if not pf.fatal:
+            out.append((case, data, pf))
+    if os.path.exists(p):
+        os.unlink(p)
     return out
+
+
+def _crc0_case(rng):
+    """REQUIRED INT32, uncompressed, one page whose body has CRC-32 exactly 0: the last value is chosen by
+    solving the (affine over GF(2)) map last-value -> crc."""
+    import zlib
+    n = rng.randrange(8, 40)
+    vals = [rng.getrandbits(32).to_bytes(4, "little") for _ in range(n - 1)]
+    prefix = b"".join(vals)
+    base = zlib.crc32(prefix + b"\0\0\0\0")
+    cols = [zlib.crc32(prefix + (1 << i).to_bytes(4, "little")) ^ base for i in range(32)]
+    # solve  XOR_i x_i * cols[i] = base  (target crc 0)
+    rows = [(cols[i], 1 << i) for i in range(32)]
+    x, tgt = 0, base
+    piv = []
+    for bit in range(32):
+        j = next((k for k, (c, _) in enumerate(rows) if (c >> bit) & 1), None)
+        if j is None:
+            continue
+        c, m = rows.pop(j)
+        rows = [((c2 ^ c, m2 ^ m) if (c2 >> bit) & 1 else (c2, m2)) for c2, m2 in rows]
+        piv.append((bit, c, m))
+    for bit, c, m in piv:
+        if (tgt >> bit) & 1:
+            tgt ^= c; x ^= m
+    last = x.to_bytes(4, "little")
+    assert zlib.crc32(prefix + last) == 0
+    sch = fc.Schema([fc.Column("c0", "INT32", "REQUIRED")])
+    return fc.Case(schema=sch, options=fc.Options(codec="UNCOMPRESSED"),
+                   ops=[fc.WriteOp("batch", 0, vals + [last]), fc.WriteOp("close")], name="c14crc0")
 
 
 def _damages(tier, rng, data, pf):
@@ -85,6 +126,14 @@ def _damages(tier, rng, data, pf):
                     m = pat << (bit % 8)
                     nb = (m.bit_length() + 7) // 8
                     dmg.append(dict(base, offset=lo + bit // 8, mask=m.to_bytes(nb, "little").hex(), kind="burst"))
+            # boundary-aimed 32-bit bursts: the first four body bytes of an uncompressed data page are the
+            # length prefix of its level block (when the column has levels): set it to the values around
+            # "everything that is left of the page", where a length check is decided
+            if pg.kind == "DATA_PAGE" and n >= 8 and pg.uncompressed_size == n:
+                cur = int.from_bytes(data[lo:lo + 4], "little")
+                for tgt in (n - 7, n - 6, n - 5, n - 4, n - 3, n - 2, n - 1, n, n + 1):
+                    if tgt >= 0 and tgt != cur:
+                        dmg.append(dict(base, offset=lo, mask=(cur ^ tgt).to_bytes(4, "little").hex(), kind="prefix"))
             if pg.kind in ("DATA_PAGE", "DATA_PAGE_V2"):
                 before += pg.num_values
     return dmg
@@ -229,11 +278,15 @@ def check_files(rep, tier, rng):
             rep.count(("off", fi) + k)
             stats["damaged_reads"] += 1
 
-        def on_fault_off(i, fault, stderr, damages=damages, case=case):
-            """A crash with verification off is recorded for C04, not failed here."""
+        def on_fault_off(i, fault, stderr, damages=damages, case=case, cj=cj):
+            """A crash with verification off violates the property's last clause ("with verification
+            disabled the same damaged files are still handled memory-safely")."""
             if len(off_faults) < 10:
                 off_faults.append({"file": case.name, "codec": case.options.codec, "damage": damages[i], "summary": fault.get("summary")})
             stats["off_faults"] = stats.get("off_faults", 0) + 1
+            if len(rep.violations) < 12:
+                rep.violation(f"crash / sanitizer report while reading a damaged page with verify_checksums=0: {fault.get('summary')}",
+                              {"file_case": cj, "damage": damages[i], "verify": False, "stderr": stderr[-1500:]}, key=None)
 
         per = 40 if tier == "quick" else 150
         _run_all(data, damages, True, br_every, per, on_result_on, on_fault_on)
